@@ -54,7 +54,7 @@ def run_stream(out, stream, cases, through_api=False):
     if through_api:
         ops = [{"kind": KIND_OF[c["kind"]], "args": [], "id": "ab1c2d", "key": "18", "now": 1700000000,
                 "replies": ["00" * 8 + "a1b2c3d4" + "00" * 12, r.hex()]} for c, r in zip(cases, replies)]
-        io = [t.split("|")[-1] for t in world.run_cases_fresh(ops)]
+        io = [t.split("|")[-1] for t in (world.run_cases_second(ops, world.random.Random(len(ops))) if through_api == "second" else world.run_cases_fresh(ops))]
     else:
         io = [impl(c["kind"], r) for c, r in zip(cases, replies)]
     lib.differential(out, stream, cases, io, mo, ex, describe, sample=describe, classify=lambda c, i: "kind%d/%s" % (c["kind"], i.split(":")[0]))
@@ -99,6 +99,8 @@ def run(tier, rnd, out):
     run_stream(out, "same-replies-decoded-again", again)
     cs = [mk(k) for k in (0, 1, 2) for _ in range(40 if tier == "quick" else 1000)]
     run_stream(out, "through-the-state-queries", cs, through_api=True)
+    cs = [mk(k) for k in (0, 0, 1) for _ in range(40 if tier == "quick" else 1000)]         # after a command (switch on / off, name, stop, position) on the same api object
+    run_stream(out, "state-query-after-a-command-on-the-same-api-object", cs, through_api="second")
     captured(out)
     amps_sweep(out)
 
@@ -118,4 +120,4 @@ def amps_sweep(out):
 def replay(rp, out):
     c = rp["input"]
     if "reply" in c: captured(out)
-    else: run_stream(out, rp.get("stream", "replay"), [c], through_api=rp.get("stream") == "through-the-state-queries")
+    else: run_stream(out, rp.get("stream", "replay"), [c], through_api=("second" if "after-a-command" in rp.get("stream", "") else rp.get("stream") == "through-the-state-queries"))
